@@ -47,6 +47,7 @@ Fixpoint dec_view (s : sexp) : rview :=
                     match l with [] => [] | x :: r => dec_view x :: go r end) ks)
       | Num 3%Z :: lb :: m :: c :: a :: b :: _ =>
           RIf (as_nat lb) (as_bool m) (dec_expr c) (dec_view a) (dec_view b)
+      | Num 4%Z :: lb :: es :: ea :: _ => RAsync (as_nat lb) (dec_expr es) (dec_expr ea)
       | _ => RStatic 0
       end
   end.
@@ -64,7 +65,7 @@ Fixpoint run_all (fuel : nat) (picks : list nat) (s : sys) : sys :=
 Definition clear_log (s : sys) : sys :=
   let v := ev s in
   {| root := root s;
-     ev := {| sigs := sigs v; neid := neid v; nid := nid v; ready := ready v; log := [] |} |}.
+     ev := {| sigs := sigs v; neid := neid v; nid := nid v; ready := ready v; log := []; nfut := nfut v; opened := opened v |} |}.
 
 Definition status (prev : list (nat * nat)) (id m : nat) : Z :=
   match find (fun p => Nat.eqb (fst p) id) prev with
@@ -93,13 +94,96 @@ Fixpoint snap (prev : list (nat * nat)) (i : inst) : sexp :=
            Lst ((fix go (l : list inst) : list sexp :=
                    match l with [] => [] | k :: l => snap prev k :: go l end) ks)]
   | IIf _ _ _ _ _ _ ch => snap prev ch
+  | IAsync _ _ _ id m sh _ _ =>
+      match sh with Some x => Lst [Num 0%Z; sN x; Num (status prev id m)] | None => Lst [] end
+  end.
+
+Definition dec_writes (s : sexp) : list event :=
+  map (fun w => EWrite (as_nat (nth_s 0 w)) (as_N (nth_s 1 w))) (as_list s).
+
+(** extended cases: the nodes on screen without identity / mutation status; an async leaf that has
+    never completed shows nothing *)
+Fixpoint plain_nodes (i : inst) : list sexp :=
+  match i with
+  | IStatic _ _ n => [Lst [Num 0%Z; sN n; Num 0%Z]]
+  | IText _ _ _ _ x => [Lst [Num 0%Z; sN x; Num 0%Z]]
+  | IElem _ _ ps ks =>
+      [Lst [Num 1%Z; prop_obs ps; Num 0%Z;
+            Lst ((fix go (l : list inst) : list sexp :=
+                    match l with [] => [] | k :: l => plain_nodes k ++ go l end) ks)]]
+  | IIf _ _ _ _ _ _ ch => plain_nodes ch
+  | IAsync _ _ _ _ _ sh _ _ => match sh with Some x => [Lst [Num 0%Z; sN x; Num 0%Z]] | None => [] end
+  end.
+
+(** the future the mounted async leaf labelled l is waiting for *)
+Fixpoint current_future (l : nat) (i : inst) : option nat :=
+  match i with
+  | IStatic _ _ _ | IText _ _ _ _ _ => None
+  | IElem _ _ _ ks =>
+      (fix go (ks : list inst) : option nat :=
+         match ks with
+         | [] => None
+         | k :: ks => match current_future l k with Some x => Some x | None => go ks end
+         end) ks
+  | IIf _ _ _ _ _ _ ch => current_future l ch
+  | IAsync f _ _ _ _ _ pe _ =>
+      if Nat.eqb (lbl f) l then match pe with Some (k, _) => Some k | None => None end else None
+  end.
+Definition index_of (k : nat) (o : list (nat * nat)) : nat :=
+  length (filter (fun x => Nat.ltb (snd x) k) o).
+(** (l 0): the future of the latest run of closure l completes; (l 1): the outstanding futures of
+    its earlier runs complete (all superseded: the model has nothing to do but forget them) *)
+Definition complete_at (c : sexp) (s : sys) : sys :=
+  let l := as_nat (nth_s 0 c) in
+  let o := filter (fun x => Nat.eqb (fst x) l) (opened (ev s)) in
+  let cur := current_future l (root s) in
+  if as_bool (nth_s 1 c) then
+    fold_left (fun s x =>
+                 match cur with
+                 | Some k => if Nat.eqb (snd x) k then s
+                             else step s (EComplete l (index_of (snd x)
+                                    (filter (fun y => Nat.eqb (fst y) l) (opened (ev s)))))
+                 | None => step s (EComplete l (index_of (snd x)
+                                    (filter (fun y => Nat.eqb (fst y) l) (opened (ev s)))))
+                 end) o s
+  else match cur with
+       | Some k => run_all (100 * 100)%nat [] (step s (EComplete l (index_of k o)))
+       | None => s
+       end.
+(** the oldest / newest outstanding future of all *)
+Definition complete_any (newest : bool) (s : sys) : sys :=
+  match (if newest then rev (opened (ev s)) else opened (ev s)) with
+  | [] => s
+  | (l, k) :: _ =>
+      let o := filter (fun x => Nat.eqb (fst x) l) (opened (ev s)) in
+      let j := length (filter (fun x => Nat.ltb (snd x) k) o) in
+      run_all (100 * 100)%nat [] (step s (EComplete l j))
+  end.
+
+Fixpoint drain (fuel : nat) (newest : bool) (s : sys) : sys :=
+  match fuel with
+  | O => s
+  | S fuel =>
+      match opened (ev s) with
+      | [] => s
+      | _ => drain fuel newest (complete_any newest s)
+      end
+  end.
+
+Fixpoint run_ext_steps (steps : list sexp) (s : sys) : list sexp * sys :=
+  match steps with
+  | [] => ([], s)
+  | st :: rest =>
+      let s1 := run_events s (dec_writes (nth_s 0 st)) in
+      let s2 := run_all (100 * 100)%nat (as_nats (nth_s 1 st)) s1 in
+      let s3 := fold_left (fun s c => complete_at c s) (as_list (nth_s 2 st)) s2 in
+      let '(obs, s4) := run_ext_steps rest s3 in
+      (Lst (plain_nodes (root s3)) :: obs, s4)
   end.
 
 Definition observe (prev : list (nat * nat)) (s : sys) : sexp :=
   Lst [snats (rev (log (ev s))); snap prev (root s); Num 1%Z].
 
-Definition dec_writes (s : sexp) : list event :=
-  map (fun w => EWrite (as_nat (nth_s 0 w)) (as_N (nth_s 1 w))) (as_list s).
 
 Fixpoint run_steps (steps : list sexp) (s : sys) (prev : list (nat * nat)) : list sexp :=
   match steps with
@@ -110,7 +194,20 @@ Fixpoint run_steps (steps : list sexp) (s : sys) (prev : list (nat * nat)) : lis
       observe prev s2 :: run_steps rest s2 (nodes (root s2))
   end.
 
-Definition run_C04 (c : sexp) : sexp :=
+(** extended case (view sigs steps (drain) (1)) with steps (writes picks completions): observation =
+    per idle point the nodes on screen, plus one entry after all outstanding futures completed *)
+Definition run_ext (c : sexp) : sexp :=
   let v := dec_view (nth_s 0 c) in
   let s0 := run_all (100 * 100)%nat [] (mount v (map as_N (as_list (nth_s 1 c)))) in
-  Lst (observe [] s0 :: run_steps (as_list (nth_s 2 c)) s0 (nodes (root s0))).
+  let '(obs, s1) := run_ext_steps (as_list (nth_s 2 c)) s0 in
+  let s2 := drain 200 (as_bool (nth_s 0 (nth_s 3 c))) s1 in
+  Lst (Lst (plain_nodes (root s0)) :: obs ++ [Lst (plain_nodes (root s2))]).
+
+Definition run_C04 (c : sexp) : sexp :=
+  match as_list c with
+  | _ :: _ :: _ :: _ :: _ :: _ => run_ext c
+  | _ =>
+  let v := dec_view (nth_s 0 c) in
+  let s0 := run_all (100 * 100)%nat [] (mount v (map as_N (as_list (nth_s 1 c)))) in
+  Lst (observe [] s0 :: run_steps (as_list (nth_s 2 c)) s0 (nodes (root s0)))
+  end.
